@@ -343,6 +343,28 @@ def run(ctx: Any) -> None:
         for method in methods:
             check_dispatch(ctx, "pipe", sv, method, md, run_pipe(server, calls, method, md))
             check_dispatch(ctx, "http", sv, method, md, run_http(client, calls, server, method, md))
+    # near-matches of the server's own version: the client text shares the server's "MAJOR.MINOR." prefix (or spells the
+    # same numbers differently) but is not canonical semver — any shortcut that recognises a matching client by a prefix,
+    # by int() of the parts or by a looser pattern admits some of these
+    odd_patch = ["", "0", "00", "03", "010", "3 ", " 3", "3\n", "+3", "-3", "3-rc1", "3.0", "3.", "x", "３", "٣", "3_0", "1e1", "0x3",
+                 "3" * 400, "3\x00", "3;", "3,4", "³"]
+    odd_num = lambda n: [f"0{n}", f"+{n}", f" {n}", f"{n} ", f"{n}_", "".join(chr(0xFF10 + int(d)) for d in str(n)), f"{n}.0"]  # noqa: E731
+    near: list[tuple[tuple[int, int, int], bytes]] = []
+    for sv in [(1, 2, 3), (0, 0, 0), (10, 0, 1), (2, 10, 0)] + [versions[rng.randrange(len(versions))] for _ in range(ctx.budget(3, 30))]:
+        for pt in odd_patch:
+            near.append((sv, f"{sv[0]}.{sv[1]}.{pt}".encode()))
+        for om in odd_num(sv[0]):
+            near.append((sv, f"{om}.{sv[1]}.{sv[2]}".encode()))
+        for on in odd_num(sv[1]):
+            near.append((sv, f"{sv[0]}.{on}.{sv[2]}".encode()))
+        near.append((sv, f"{sv[0]}.{sv[1]}".encode()))
+        near.append((sv, f"{sv[0]}.{sv[1]}.{sv[2]}.".encode()))
+        near.append((sv, f"v{sv[0]}.{sv[1]}.{sv[2]}".encode()))
+    for sv, md in near:
+        server, calls, client = get(sv)
+        for method in methods:
+            check_dispatch(ctx, "pipe", sv, method, md, run_pipe(server, calls, method, md))
+            check_dispatch(ctx, "http", sv, method, md, run_http(client, calls, server, method, md))
     # a service declaring no version never checks
     server, calls, client = get(None)
     for md in [None, b"1.2.3", b"garbage", b"\xff", b"9.9.9"]:
